@@ -48,6 +48,15 @@ EdgeBits(a, b, in, out) ==
     [] a = "oklab" /\ b = "okhsv" -> OkhsvBits(out, in)
     [] a = "okhsl" /\ b = "oklab" -> OkhslBits(in, out)
     [] a = "oklab" /\ b = "okhsl" -> OkhslBits(out, in)
+    \* the same definitions relative to other white points (nodes of the harness' universe of other standards)
+    [] a = "xyz50" /\ b = "lab50" -> LabBitsW(WhiteD50, in, out)
+    [] a = "lab50" /\ b = "xyz50" -> LabBitsW(WhiteD50, out, in)
+    [] a = "xyz50" /\ b = "luv50" -> LuvBitsW(WhiteD50, in, out)
+    [] a = "luv50" /\ b = "xyz50" -> LuvBitsW(WhiteD50, out, in)
+    [] a = "lab50" /\ b = "lch50" -> PolarBits(in, out)
+    [] a = "lch50" /\ b = "lab50" -> PolarBits(out, in)
+    [] a = "xyzdci" /\ b = "labdci" -> LabBitsW(WhiteDci, in, out)
+    [] a = "labdci" /\ b = "xyzdci" -> LabBitsW(WhiteDci, out, in)
     [] a = "lchuv" /\ b = "hsluv" -> HsluvBits(in, out)
     [] a = "hsluv" /\ b = "lchuv" -> HsluvBits(out, in)
     [] a = "xyz" /\ b = "lmsvk" -> MatBits(K.vk, in, out)
@@ -81,6 +90,8 @@ InFormulaDomain(a, b, in) ==
     [] a = "xyz" /\ b = "yxy" -> FxLt(FxEps(20), FxAdd(in[1], FxAdd(in[2], in[3])))
     [] a = "luv" /\ b = "xyz" -> FxLt(FxEps(10), in[1])
     [] a = "xyz" /\ b = "luv" -> FxLt(FxEps(30), in[2])
+    [] a = "luv50" /\ b = "xyz50" -> FxLt(FxEps(10), in[1])
+    [] a = "xyz50" /\ b = "luv50" -> FxLt(FxEps(30), in[2])
     [] a = "srgb" /\ b \in {"hsv", "hsl"} -> \A i \in 1..3 : FxLe(FxZero, in[i]) /\ FxLe(in[i], FxOne)
     \* Okhsl: black and white are special-cased (also for chromatic input, unlike the listing); within 2^-12 of them
     \* the fourth powers of get_Cs leave the fixed-point range of the reference, so those inputs are not judged
